@@ -13,6 +13,7 @@ import SarpyModel.Drivers.Crsd
 import SarpyModel.Drivers.Proj
 import SarpyModel.Drivers.Lifecycle
 import SarpyModel.Drivers.XmlFmt
+import SarpyModel.Drivers.Checker
 namespace Sarpy.Drivers
 
 def step (line : String) : String :=
@@ -33,6 +34,7 @@ def step (line : String) : String :=
   | "proj" :: rest => (projStep rest).getD "bad-op"
   | "life" :: rest => (lifeStep rest).getD "bad-op"
   | "xml" :: rest => (xmlStep rest).getD "bad-op"
+  | "checker" :: rest => (checkerStep rest).getD "bad-op"
   | _ => "bad-op"
 
 partial def loop (h : IO.FS.Stream) : IO Unit := do
